@@ -19,6 +19,7 @@ SUBJ = {
  "D5c": "fix: apply set_scripts to the storage atomically",
  "D5d": "fix: mark the storage as initialized only after",
  "D5e": "fix: rollback_to_block does not skip a script",
+ "D5f": "fix: store the matched blocks of a batch and move",
  "D25": "fix: a fork rolls the index back to the fork point",
  "D26": "fix: a rollback does not restore a cell",
  "D27": "fix: a verifiable header whose total difficulty overflows",
